@@ -26,6 +26,8 @@ def run(rep, prog, tier):
     rep.rule('C01.3', 'each key-material verify returns truthy only on a path through the library verify; InvalidSignature -> falsy', floor=4)
     rep.rule('C01.4', 'verdict object: default issues fail closed, WrongSig disqualifies (shared with C17)', floor=3)
     rep.rule('C01.5', 'version, signature type and both algorithm ids reach the trailer as received: parse order, injective setters, plain getters', floor=12)
+    rep.rule('C01.6', 'the hashed subpacket area that is hashed is the received one, also on copies (the C05 capture / replay / copy rules)', floor=30)
+    rep.rule('C01.7', 'what verify hands to hashdata for a message is an injective function of the received octets (no lossy decode / encode / normalisation)', floor=12)
     rep.assume('PGPKey.hashdata / PGPUID.hashdata are non-empty for a key / user id that exists (axiom len(...) > 0)')
     rep.assume('cryptography.*.verify raises InvalidSignature on a bad signature and returns None otherwise (trusted base)')
 
@@ -37,6 +39,9 @@ def run(rep, prog, tier):
     verdict.check_crypto_arm_verdict(rep, prog, 'C01.2')
     verdict.check_mask_contains(rep, prog, 'C01.4', ['WrongSig'])
     check_header_fields(rep, prog)
+    verdict.check_partition(rep, prog, 'C01.4')        # the same evaluation C17.2 makes: truthy exactly when no record is bad
+    check_hashed_area(rep, prog)
+    check_signed_data_path(rep, prog)
 
 
 # ------------------------------------------------------------------------------------------------ C01.2
@@ -78,8 +83,6 @@ def check_verify_wiring(rep, prog):
         for call, s in records:
             a = verdict.record_args(prog, call)
             shown.append(a)
-            if a[3] not in ('SecurityIssues.OK', 'SecurityIssues.WrongSig'):
-                continue
             if a[3] == want and (a[0], a[2]) == verdict.loop_pair(fi, s):
                 good.append(a)
             else:
@@ -369,3 +372,191 @@ def check_injective_field(rep, prog, ci, pname):
                   'the received %s octet must be stored unchanged (enum lookup by value or the raw value), never mapped to another value: '
                   'a signature whose octet was rewritten would hash the same trailer' % pname, where=st.where,
                   expected='octet k stored as the member with value k', found=['octet %s stored as %s' % b for b in bad[:6]])
+
+
+# ------------------------------------------------------------------------------------------------ C01.6
+def check_hashed_area(rep, prog):
+    """"never truthy if any hashed subpacket value differs": the octets hashed for the hashed area must be the received ones,
+    on the parsed signature and on every copy of it.  This is C05's own analysis (capture, replay, other stores / copies,
+    consumers), called here under a C01 rule id - not a second implementation."""
+    from rules import C05
+    from rules.C08 import _Proxy
+    P = _Proxy(rep, 'C01.6')
+    ci = prog.cls('pgpy.packet.fields', 'SubPackets')
+    hb = ci.methods.get('__hashbytearray__')
+    if hb is None:
+        raise AnalysisError('SubPackets.__hashbytearray__ vanished')
+    raw = C05.raw_attribute(prog)
+    if raw is None:
+        rep.violation('C01.6', 'SubPackets.__hashbytearray__', 're-serialises parsed subpackets',
+                      'the hashed area that is verified is a re-encoding of parsed subpacket objects, not the received octets: '
+                      'subpacket values that re-encode alike verify alike', where=hb.where)
+        return
+    C05.check_capture(P, prog, ci, raw)
+    C05.check_replay(P, prog, ci, hb, raw, '%s.%s' % (hb.params[0], raw))
+    C05.check_other_stores(P, prog, ci, raw)
+    C05.check_consumers(P, prog)
+
+
+# ------------------------------------------------------------------------------------------------ C01.7
+INJECTIVE_CODECS = {'latin-1', 'latin1', 'latin_1', 'iso-8859-1', 'iso8859-1', 'l1', 'utf-8', 'utf8', 'utf_8', 'ascii', 'us-ascii', 'charmap'}
+INJECTIVE_ERRORS = {'strict', 'surrogateescape', 'surrogatepass'}
+LOSSY_METHODS = {'strip', 'lstrip', 'rstrip', 'lower', 'upper', 'casefold', 'title', 'capitalize', 'swapcase', 'replace', 'expandtabs',
+                 'translate', 'splitlines', 'split', 'rsplit', 'partition', 'rpartition', 'removeprefix', 'removesuffix', 'zfill',
+                 'center', 'ljust', 'rjust', 'format', 'join', 'normalize'}
+LOSSY_FUNCTIONS = {'re.sub', 're.subn', 'unicodedata.normalize', 'textwrap.dedent', 'str.strip', 'str.lower'}
+TRANSPARENT_METHODS = {'copy', '__bytearray__', '__bytes__', '__copy__', 'tobytes'}
+
+
+def _lit(t):
+    try:
+        v = ast.literal_eval(t)
+    except Exception:
+        return None
+    return v.lower() if isinstance(v, str) else None
+
+
+def lossy_steps(s, root):
+    """Transformations applied on this path to values rooted at `root` that are not injective: (description) list, and the
+    list of steps that could not be classified."""
+    lossy, unknown = [], []
+    for ft, args, kw, line, node in s.calls:
+        if ft.startswith(root + '.') or ft.startswith(root + '['):
+            meth = ft.rsplit('.', 1)[-1]
+            shown = '%s(%s)' % (ft, ', '.join(args + ['%s=%s' % kv for kv in kw.items()]))
+            if meth in ('decode', 'encode'):
+                codec = _lit(args[0]) if args else (_lit(kw['encoding']) if 'encoding' in kw else 'utf-8')
+                errors = _lit(args[1]) if len(args) > 1 else (_lit(kw['errors']) if 'errors' in kw else 'strict')
+                if errors is None or codec is None:
+                    unknown.append(shown)
+                elif errors not in INJECTIVE_ERRORS:
+                    lossy.append('%s: errors=%r maps different octets to the same text' % (shown, errors))
+                elif codec not in INJECTIVE_CODECS:
+                    lossy.append('%s: codec %r is not one-to-one (byte order marks / alternative encodings)' % (shown, codec))
+            elif meth in LOSSY_METHODS:
+                lossy.append('%s: %s is not one-to-one' % (shown, meth))
+            elif meth in TRANSPARENT_METHODS or meth.startswith('is') or meth in ('startswith', 'endswith', 'find', 'index', 'count'):
+                pass
+            else:
+                unknown.append(shown)
+        elif ft in LOSSY_FUNCTIONS and any(a.startswith(root) for a in args):
+            lossy.append('%s(%s): not one-to-one' % (ft, ', '.join(args)))
+        elif ft in ('str', 'bytes', 'bytearray') and len(args) + len(kw) > 1 and args and args[0].startswith(root):
+            codec = _lit(args[1]) if len(args) > 1 else (_lit(kw.get('encoding', "'utf-8'")))
+            errors = _lit(args[2]) if len(args) > 2 else (_lit(kw['errors']) if 'errors' in kw else 'strict')
+            if errors not in INJECTIVE_ERRORS or codec not in INJECTIVE_CODECS:
+                lossy.append('%s(%s): lossy conversion' % (ft, ', '.join(args + ['%s=%s' % kv for kv in kw.items()])))
+    return lossy, unknown
+
+
+def check_rooted_value(rep, construct, fi, s, root, value_text, scen):
+    lossy, unknown = lossy_steps(s, root)
+    rooted = value_text is not None and (value_text == root or value_text.startswith(root + '.') or value_text.startswith(root + '[') or
+                                         re.match(r'^(bytes|bytearray|str)\(%s\)$' % re.escape(root), value_text) is not None)
+    sliced = value_text is not None and 'SLICE(' in value_text
+    rep.check(rooted and not lossy and not sliced, 'C01.7', construct, '%s -> %s' % (scen, value_text),
+              'the signed data must be a one-to-one image of the received octets: ' +
+              ('; '.join(lossy) if lossy else ('a slice drops octets' if sliced else 'the value does not derive from %s' % root)) +
+              ' - a forged octet would hash to the same data', where=fi.where,
+              expected='%s, decoded / encoded strictly with a one-to-one codec at most' % root, found=value_text, scenario=scen)
+    if unknown and rooted and not lossy:
+        raise AnalysisError('%s: transformation of the signed data not classified: %s' % (construct, unknown[:2]))
+
+
+def check_signed_data_path(rep, prog):
+    """LiteralData octets -> contents -> PGPMessage.message -> _signed_data -> the pair PGPKey.verify examines -> hashdata."""
+    noinl = lambda f: False  # noqa: E731
+    lit = prog.cls('pgpy.packet.packets', 'LiteralData')
+    getter = lit.find_method('contents')
+    if getter is None:
+        raise AnalysisError('LiteralData.contents vanished')
+    rep.saw(fn=getter)
+    me = getter.params[0]
+    # the octets: what the binary format returns unchanged, and what parse fills from the packet
+    root = None
+    for s in Interp(prog, Scenario(bind={'%s.format' % me: Const('b')}, inline=noinl)).run(getter):
+        if s.raised is None and s.ret is not None:
+            t = render(s.ret)
+            m = re.search(r'%s\.[A-Za-z_]\w*' % re.escape(me), t)
+            root = m.group(0) if m else None
+    if root is None:
+        raise AnalysisError('LiteralData.contents: binary contents do not come from an attribute of the packet')
+    pf = lit.find_method('parse')
+    stored = False
+    for s in Interp(prog, Scenario(args={pf.params[1]: Sym('<pkt>', nonnull=True)}, inline=noinl, forward_stores=False)).run(pf):
+        for path, vt, line, v in s.stores:
+            if path == root.replace(me + '.', pf.params[0] + '.', 1) and '<pkt>' in vt:
+                stored = True
+    rep.check(stored, 'C01.7', 'LiteralData.parse', '%s filled from the packet' % root, 'the contents must be the received octets', where=pf.where)
+    for fmt in ('b', 't', 'u'):
+        outs = [s for s in Interp(prog, Scenario(bind={'%s.format' % me: Const(fmt)}, inline=noinl)).run(getter) if s.raised is None]
+        if not outs:
+            raise AnalysisError('LiteralData.contents: no returning path for format %r' % fmt)
+        for s in outs:
+            check_rooted_value(rep, 'LiteralData.contents', getter, s, root, render(s.ret) if s.ret is not None else None, 'format %r' % fmt)
+    # PGPMessage.message / _signed_data for a literal message hand the contents on unchanged
+    msg = prog.cls('pgpy.pgp', 'PGPMessage')
+    for name, want_root in (('message', None), ('_signed_data', None)):
+        g = msg.find_method(name)
+        if g is None:
+            if name == '_signed_data':
+                continue            # older trees hand PGPMessage.message to hashdata directly
+            raise AnalysisError('PGPMessage.%s vanished' % name)
+        rep.saw(fn=g)
+        sc = Scenario(bind={'%s._message' % g.params[0]: Sym('%s._message' % g.params[0], types={'LiteralData'}, nonnull=True),
+                            '%s.type' % g.params[0]: Const('literal')}, inline=noinl)
+        outs = [s for s in Interp(prog, sc).run(g) if s.raised is None]
+        if not outs:
+            raise AnalysisError('PGPMessage.%s: no returning path for a literal message' % name)
+        r = '%s._message.contents' % g.params[0] if name == 'message' else '%s.message' % g.params[0]
+        for s in outs:
+            check_rooted_value(rep, 'PGPMessage.%s' % name, g, s, r, render(s.ret) if s.ret is not None else None, 'literal message')
+    # the text helpers used on the cleartext path decode / encode strictly
+    po = prog.cls('pgpy.types', 'PGPObject')
+    for name in ('bytes_to_text', 'text_to_bytes'):
+        g = po.find_method(name)
+        if g is None:
+            continue
+        rep.saw(fn=g)
+        arg = g.params[-1]
+        for typ in ('bytes', 'str'):
+            for s in Interp(prog, Scenario(args={arg: Sym('<text>', types={typ}, nonnull=True)}, inline=noinl)).run(g):
+                if s.raised is None:
+                    check_rooted_value(rep, 'PGPObject.%s' % name, g, s, '<text>', render(s.ret) if s.ret is not None else None, '%s argument' % typ)
+    # PGPKey.verify examines the message's signed data, unchanged
+    fi, outs, _ = verdict.run_verify(prog, F=False, V=False, subject_type='PGPMessage')
+    subj = fi.params[1]
+    seen = 0
+    for s in outs:
+        for (ft, args, kw, line, node) in [c for c in s.calls if c[0] == 'self._key.verify']:
+            pair = verdict.loop_pair(fi, s)
+            if pair is None:
+                continue
+            bound = [v for k, v in s.bound.items() if pair[0].startswith(k + '_') or pair[0].startswith(k + '[')]
+            coll = (bound[0] if bound else '') + ' ' + pair[0]
+            m = re.findall(r'EACH\(\$[\d.]+ in [^;]*;\(\$[\d.]+, ([^()]*(?:\([^()]*\))?[^()]*)\)\)', coll)
+            if not m:
+                continue
+            seen += 1
+            lossy, unknown = lossy_steps(s, subj)
+            handed = '_signed_data' if msg.find_method('_signed_data') is not None else 'message'
+            ok = all(x in ('%s.%s' % (subj, handed),) for x in m) and not lossy
+            rep.check(ok, 'C01.7', 'PGPKey.verify', 'message pairs (sig, %s)' % sorted(set(m)),
+                      'the data examined for a message must be its signed data, unchanged' + (': ' + '; '.join(lossy) if lossy else ''), where=fi.where,
+                      expected='(sig, %s.%s)' % (subj, handed), found=sorted(set(m)), scenario='PGPMessage subject')
+    if not seen:
+        raise AnalysisError('PGPKey.verify: no pairs collected for a PGPMessage subject')
+    # hashdata: a text subject is encoded strictly
+    hd = prog.method('pgpy.pgp', 'PGPSignature', 'hashdata')
+    sp = hd.params[1]
+    n = 0
+    for s in Interp(prog, Scenario(args={sp: Sym('<subject>', types={'str'}, nonnull=True)},
+                                   bind={'%s.type' % hd.params[0]: Const(Enum('SignatureType', 'BinaryDocument', 0))}, inline=noinl)).run(hd):
+        if s.raised is not None:
+            continue
+        n += 1
+        lossy, unknown = lossy_steps(s, '<subject>')
+        rep.check(not lossy, 'C01.7', 'PGPSignature.hashdata', 'text subject: %s' % (lossy or 'strict encodings only'),
+                  'a text subject must be encoded one-to-one before hashing', where=hd.where, found=lossy, scenario='str subject')
+    if n == 0:
+        raise AnalysisError('PGPSignature.hashdata: no returning path for a text subject')
